@@ -76,6 +76,13 @@ pub fn gen_c01(out: &mut dyn Write, thorough: bool, seed: u64) {
         for _ in 0..(if thorough { 8 } else { 5 }) {
             let text = gen_text(&mut r, &m, &alpha, 30);
             // the sentence sometimes carries earlier annotations, which prediction must overwrite
+            // sometimes the sentence was already predicted (by this or by another predictor) and is predicted again
+            if r.chance(1, 4) {
+                let (m2, _) = gen_model(&mut r, &opts);
+                let first = if r.chance(1, 2) { 1 } else { 0 };
+                writeln!(out, "H {CFG} {mt}^00!{}^00 Fraw:{},pred:{first},pred:0,obs:SB,spec:0 c01", m2.to_text(), hexs(&text)).unwrap();
+                continue;
+            }
             let pre = match r.below(3) {
                 0 => format!("Fraw:{}", hexs(&text)),
                 1 => {
